@@ -50,6 +50,10 @@ mod toml;
 mod transcode;
 mod yaml;
 
+#[cfg(feature = "verif")]
+#[doc(hidden)]
+pub mod verif;
+
 pub use error::{Error, Result};
 
 /// Translates the contents of a single input slice to a different format.
